@@ -96,6 +96,14 @@ def destroy (p : Pool) : List Nat := p.chunks
 def paAllocate (E n : Nat) (p : Pool) : Except Err (Block × Pool) :=
   if paAccepts n then .ok (allocate E p) else .error .alloc
 
+/-- `PoolAllocator::deallocate(q, n)`: `for (i = 0; i < n; i++) pool.free(q++)`.  Modelled for the two counts that make
+    sense for an allocator whose blocks hold one object: `n = 0` does nothing, `n = 1` is `Pool::free`; `none` otherwise -/
+def paDeallocate (g : Geo) (p : Pool) (q : Ptr) (n : Nat) : Option (Except Err Pool) :=
+  match paDeallocFrees n with
+  | 0 => some (.ok p)
+  | 1 => some (free g p q)
+  | _ => none
+
 /-- `Pool::allocate()` when `operator new` may fail: `grow()` starts with `new Chunk`, so with `newOk = false` an empty
     free list means bad_alloc before the pool is touched; a non-empty free list is popped without calling `new` -/
 def allocateOS (E : Nat) (newOk : Bool) (p : Pool) : Except Err (Block × Pool) :=
@@ -312,7 +320,7 @@ def osServes (bytes : Nat) : Bool := bytes < 2 ^ 47
 def showBlock (b : Block) : String := toString b.1 ++ "." ++ toString b.2
 
 /-- one op of a pool history: `a` | `ao` (allocate while operator new fails) | `n<k>` (PoolAllocator::allocate(k)) |
-    `f<k>` (free the k-th live block) | `fn` (free(nullptr)) | `fx` (free(foreign)) | `fe`/`fb` (free of the address just
+    `f<k>` (free the k-th live block) | `d<k>` (PoolAllocator::deallocate(k-th live block, 0)) | `fn` (free(nullptr)) | `fx` (free(foreign)) | `fe`/`fb` (free of the address just
     behind / just in front of the newest chunk's storage: outside every chunk) -/
 def poolOp (g : Geo) (isPA : Bool) (p : Pool) (op : String) : Option (Pool × String) :=
   let cs := op.toList
@@ -337,9 +345,18 @@ def poolOp (g : Geo) (isPA : Bool) (p : Pool) (op : String) : Option (Pool × St
     | none => none
     | some k => match p.live[k]? with
       | none => some (p, "-")
-      | some b => match free g p (.blk b) with
-        | .ok p' => some (p', "ok")
-        | .error _ => some (p, "ERR:Alloc")
+      | some b => match (if isPA then paDeallocate g p (.blk b) 1 else some (free g p (.blk b))) with
+        | some (.ok p') => some (p', "ok")
+        | some (.error _) => some (p, "ERR:Alloc")
+        | none => none
+  | 'd' :: ds => if !isPA then none else match (String.ofList ds).toNat? with
+    | none => none
+    | some k => match p.live[k]? with
+      | none => some (p, "-")
+      | some b => match paDeallocate g p (.blk b) 0 with
+        | some (.ok p') => some (p', "ok")
+        | some (.error _) => some (p, "ERR:Alloc")
+        | none => none
   | 'n' :: ds => if !isPA then none else match (String.ofList ds).toNat? with
     | none => none
     | some n => match paAllocate g.elements n p with
@@ -366,6 +383,7 @@ def poolLine (sz al s : Nat) (isPA : Bool) (ops : String) : String :=
   | none => "bad-op"
   | some (p, outs) =>
     let d := destroy p
+    (if isPA then "max=" ++ toString paMaxSize ++ " " else "") ++
     "geo=" ++ showList [unionSize sz al S, size sz al S, alignment sz al S, alignedSize sz al S, chunkSize sz al S,
       elements sz al S] ++ " : " ++ ";".intercalate outs ++ " : chunks=" ++ toString p.chunks.length ++
       " released=" ++ toString d.length
